@@ -7,6 +7,7 @@ RUN: harness/cmd/c04 calls the real css.Minifier (stylesheet and inline mode, Ke
      Precision 0) and projects input and output with its own CSS Syntax Level 3 tokenizer/parser.
 TV : C04Trace evaluates CssEq.ItemVerdict on every (input item, output item) position.
 """
+import hashlib
 import json
 import os
 import re
@@ -16,6 +17,8 @@ import vlib
 
 PID = 'C04'
 MAX_RERUN = 2000
+CHUNK = 20000        # cases per driver process
+PAR = 4              # driver processes side by side
 
 
 # ------------------------------------------------------------------ cases ------------
@@ -62,10 +65,15 @@ def corpus_cases(ctx):
 
 # ------------------------------------------------------------------ run + validate ---
 def run_cases(ctx, exe, cases, tag, isolated=False):
-    """isolated: one fresh driver process per case (used to confirm rejections)"""
-    groups = [[i] for i in range(len(cases))] if isolated else [list(range(len(cases)))]
-    events = []
-    for g, idxs in enumerate(groups):
+    """Run the driver; yields event dicts.  isolated: one fresh driver process per case (used to
+    confirm rejections); otherwise chunks of CHUNK cases, PAR driver processes side by side."""
+    if isolated:
+        groups = [[i] for i in range(len(cases))]
+    else:
+        groups = [list(range(a, min(a + CHUNK, len(cases)))) for a in range(0, len(cases), CHUNK)]
+
+    def one(g):
+        idxs = groups[g]
         cin = ctx.path('run', '%s-%d-cases.ndjson' % (tag, g))
         tout = ctx.path('run', '%s-%d-trace.ndjson' % (tag, g))
         with open(cin, 'w') as f:
@@ -74,15 +82,20 @@ def run_cases(ctx, exe, cases, tag, isolated=False):
                 f.write(json.dumps(dict(id=i, src=list(c['src']), inline=c['inline'], css2=c['css2']),
                                    separators=(',', ':')) + '\n')
         vlib.run([exe, cin, tout], timeout=1800)
-        events += [json.loads(l) for l in open(tout)]
-        if isolated:
-            os.remove(cin)
+        os.remove(cin)
+        return tout
+
+    with ThreadPoolExecutor(max_workers=1 if isolated else PAR) as ex:
+        for tout in ex.map(one, range(len(groups))):
+            with open(tout) as fh:
+                for l in fh:
+                    yield json.loads(l)
             os.remove(tout)
-    return events
 
 
 def tv_key(e):
-    return json.dumps([e['omal'], e['err'], e['panic'], e['i'], e['o']], separators=(',', ':'), sort_keys=True)
+    return hashlib.sha1(json.dumps([e['omal'], e['err'], e['panic'], e['i'], e['o']], separators=(',', ':'),
+                                   sort_keys=True).encode()).digest()
 
 
 def tv(ctx, lines, timeout=1700):
@@ -98,15 +111,13 @@ def tv(ctx, lines, timeout=1700):
         p = ctx.path('tv', 'c04-%d-%d.ndjson' % (vlib._tlc_n[0], s))
         with open(p, 'w') as f:
             for i in idx:
-                e = lines[i]
-                f.write(json.dumps(dict(id=e['id'], idx=e['idx'], omal=e['omal'], err=e['err'], panic=e['panic'],
-                                        i=e['i'], o=e['o']), separators=(',', ':')) + '\n')
+                f.write(lines[i] + '\n')
         files.append(p)
         index.append(idx)
     vlib._tlc_n[0] += 1
 
     def one(s):
-        return vlib.tlc(ctx, 'C04Trace', 'C04Trace.cfg', workers=1, heap='2g', timeout=timeout,
+        return vlib.tlc(ctx, 'C04Trace', 'C04Trace.cfg', workers=1, heap='3g', timeout=timeout,
                         env={'TRACE': files[s]})
 
     with ThreadPoolExecutor(max_workers=shards) as ex:
@@ -122,16 +133,25 @@ def tv(ctx, lines, timeout=1700):
             rejects.setdefault(index[s][l - 1], []).append(why)
         for m in re.finditer(r'<<"NOTE", (\d+), "ood">>', r['out']):
             notes.add(index[s][int(m.group(1)) - 1])
+        os.remove(files[s])
     return rejects, notes
 
 
 def validate(ctx, exe, cases, tag, isolated=False):
     """Run the cases on the real code and validate every item position.
-    Returns (events, per-case rejects {case_index: [(idx, why)]}, stats)."""
-    events = run_cases(ctx, exe, cases, tag, isolated)
-    uniq, first = {}, []
+    Returns (outs {case: output bytes}, per-case rejects {case_index: [(idx, why)]}, stats).
+    Identical (input item, output item) pairs are validated once."""
+    uniq, first = {}, []          # key -> index ; TV lines (json strings)
+    refs = []                     # (case id, item idx, uniq index)
     skipped_mal = set()
-    for e in events:
+    outs = {}
+    nlines = 0
+    for e in run_cases(ctx, exe, cases, tag, isolated):
+        nlines += 1
+        if e['idx'] == 0:
+            o = bytes(e['out'])
+            outs[e['id']] = o if (isolated or len(o) < 200) else o[:200]
+            cases[e['id']]['changed'] = (o != cases[e['id']]['src']) and not e['mal']
         if e['mal']:
             skipped_mal.add(e['id'])
             continue
@@ -140,38 +160,30 @@ def validate(ctx, exe, cases, tag, isolated=False):
         k = tv_key(e)
         if k not in uniq:
             uniq[k] = len(first)
-            first.append(e)
+            first.append(json.dumps(dict(id=e['id'], idx=e['idx'], omal=e['omal'], err=e['err'], panic=e['panic'],
+                                         i=e['i'], o=e['o']), separators=(',', ':')))
+        refs.append((e['id'], e['idx'], uniq[k]))
     rejects, notes = tv(ctx, first)
     per_case = {}
     accepted = 0
     ood = 0
-    for e in events:
-        if e['mal']:
-            continue
-        k = tv_key(e)
-        if k not in uniq:
-            continue
-        u = uniq[k]
+    for cid, idx, u in refs:
         if u in rejects:
-            per_case.setdefault(e['id'], []).append((e['idx'], '/'.join(sorted(set(rejects[u])))))
+            per_case.setdefault(cid, []).append((idx, '/'.join(sorted(set(rejects[u])))))
         else:
             accepted += 1
             if u in notes:
                 ood += 1
-    stats = dict(lines=len(events), distinct_lines=len(first), accepted=accepted, outside_domain=ood,
+    stats = dict(lines=nlines, distinct_lines=len(first), accepted=accepted, outside_domain=ood,
                  malformed_inputs=len(skipped_mal))
-    return events, per_case, stats
+    return outs, per_case, stats
 
 
 def ident(c):
     return dict(src=c['src'].decode('latin1'), inline=c['inline'], css2=c['css2'])
 
 
-def describe(c, evs, rej):
-    out = b''
-    for e in evs:
-        if e['idx'] == 0:
-            out = bytes(e['out'])
+def describe(c, out, rej):
     return '%r (inline=%s css2=%s) -> %r rejected at item %s' % (
         c['src'].decode('latin1')[:300], c['inline'], c['css2'], out.decode('latin1')[:300],
         '; '.join('%d: %s' % (i, w) for i, w in rej[:4]))
@@ -189,20 +201,20 @@ COLOR_PROPS = ['color', 'background-color', 'border-left-color', 'border-color',
 ALPHA_SLOT = dict(q=L('', '0', '.5', '1', '50%', '100%', '2', '.05'),
                   t=L('', '0', '.5', '1', '50%', '100%', '2', '-1', '.05', '.005', '0.0', '1.0', '60%', '1e-1', '.999'))
 RGB_SLOT = dict(q=L('0', '255', '128', '300', '20%', '100%', '50%'),
-                t=L('0', '255', '128', '51', '300', '-1', '1e2', '0%', '20%', '40%', '50%', '100%', '120%', '12.5%', '33.333%', '10%', '127.5'))
+                t=L('0', '255', '128', '51', '300', '-1', '0%', '20%', '50%', '100%', '120%', '12.5%', '10%'))
 FAMS = [
     dict(fam='trbl', props=['margin', 'padding', 'border-width'], kind='list', min=1, max=dict(q=4, t=4),
          slots=[dict(q=L('0', '0px', '1px', '0%', '.5em', 'auto'),
                      t=L('0', '0px', '1px', '0%', '.5em', 'auto', '-1px', '0.0em', '1PX', 'calc(1px + 0px)', '0s'))]),
     dict(fam='bgpos', props=['background-position'], kind='list', min=1, max=dict(q=4, t=4),
          slots=[dict(q=L('left', 'right', 'top', 'bottom', 'center', '0', '10%', '50%', '100%', '1px'),
-                     t=L('left', 'right', 'top', 'bottom', 'center', '0', '0%', '0px', '10%', '20%', '50%', '100%', '1px', '10.5%', '-5%', '150%', 'CENTER', ','))]),
-    dict(fam='bgsize', props=['background-size'], kind='list', min=1, max=dict(q=3, t=5),
+                     t=L('left', 'right', 'top', 'bottom', 'center', '0', '0%', '0px', '10%', '50%', '100%', '1px', '-5%', 'CENTER', ','))]),
+    dict(fam='bgsize', props=['background-size'], kind='list', min=1, max=dict(q=3, t=4),
          slots=[dict(q=L('auto', '0', '10%', '1px', 'cover', 'contain', ','), t=L('auto', '0', '0px', '10%', '1px', 'cover', 'contain', ',', 'AUTO'))]),
-    dict(fam='bgrepeat', props=['background-repeat'], kind='list', min=1, max=dict(q=3, t=5),
+    dict(fam='bgrepeat', props=['background-repeat'], kind='list', min=1, max=dict(q=3, t=4),
          slots=[dict(q=L('repeat', 'no-repeat', 'space', 'round', 'repeat-x', 'repeat-y', ','),
                      t=L('repeat', 'no-repeat', 'space', 'round', 'repeat-x', 'repeat-y', ',', 'REPEAT'))]),
-    dict(fam='background', props=['background'], kind='list', min=1, max=dict(q=3, t=4),
+    dict(fam='background', props=['background'], kind='list', min=1, max=dict(q=3, t=3),
          slots=[dict(q=L('red', '#0000', 'transparent', 'url(a)', 'none', '0', 'left', 'top', 'center', '10%', '/', 'auto', 'cover',
                          'no-repeat', 'repeat', 'repeat-x', 'scroll', 'fixed', 'padding-box', 'border-box', ','),
                      t=L('red', '#0000', 'transparent', 'url(a)', 'none', '0', 'left', 'top', 'center', 'right', 'bottom', '10%', '1px', '/', 'auto', 'cover',
@@ -211,13 +223,13 @@ FAMS = [
     dict(fam='border', props=['border', 'border-left', 'outline', 'column-rule', 'text-decoration', 'text-emphasis', 'border-top', 'border-right', 'border-bottom'],
          kind='list', min=1, max=dict(q=3, t=4),
          slots=[dict(q=L('none', 'medium', 'currentcolor', 'solid', '0', '1px', 'red', '#FF0000', 'invert', 'underline'),
-                     t=L('none', 'medium', 'currentcolor', 'solid', '0', '1px', '0px', 'red', '#FF0000', 'invert', 'underline', 'BLACK', 'thin', 'NONE', 'rgb(0,0,0)', 'dotted', 'filled'))]),
+                     t=L('none', 'medium', 'currentcolor', 'solid', '0', '1px', 'red', '#FF0000', 'invert', 'underline', 'BLACK', 'NONE', 'filled'))]),
     dict(fam='bordercolor', props=['border-color'], kind='list', min=1, max=dict(q=4, t=4),
          slots=[dict(q=L('red', '#f00', 'currentcolor', 'blue', 'initial'), t=L('red', '#f00', '#FF0000', 'currentcolor', 'blue', 'initial', 'transparent', 'inherit'))]),
     dict(fam='font', props=['font'], kind='list', min=1, max=dict(q=3, t=4),
          slots=[dict(q=L('normal', 'bold', 'italic', '400', '12px', 'medium', '/', '1.5', 'arial', '"Times New Roman"', 'serif', ','),
-                     t=L('normal', 'bold', 'italic', '400', '700', '12px', 'medium', '0', '/', '1.5', 'arial', '"Times New Roman"', "'a  b'", 'serif', '"serif"', ',', '-apple-system', 'small-caps', 'Snow'))]),
-    dict(fam='fontfamily', props=['font-family'], kind='list', min=1, max=dict(q=3, t=4),
+                     t=L('normal', 'bold', 'italic', '400', '12px', 'medium', '0', '/', '1.5', 'arial', '"Times New Roman"', "'a  b'", 'serif', ',', '-apple-system', 'Snow'))]),
+    dict(fam='fontfamily', props=['font-family'], kind='list', min=1, max=dict(q=3, t=3),
          slots=[dict(q=L('arial', '"Arial"', '"Times New Roman"', 'Times', 'serif', '"sans-serif"', ',', "'a  b'"),
                      t=L('arial', '"Arial"', '"Times New Roman"', 'Times', 'New', 'serif', '"sans-serif"', ',', "'a  b'", '"x-1"', "' a'", '"inherit"', 'Tan', '"1a"', '""'))]),
     dict(fam='fontweight', props=['font-weight'], kind='list', min=1, max=dict(q=1, t=2),
@@ -227,11 +239,11 @@ FAMS = [
                      t=L('0', '1', '2', 'auto', 'none', 'initial', '0px', '0%', '10px', 'content', '1.5', '0em', 'AUTO', '5000%', '1.0'))]),
     dict(fam='flexlong', props=['flex-basis', 'flex-grow', 'flex-shrink', 'order'], kind='list', min=1, max=dict(q=1, t=1),
          slots=[dict(q=L('initial', '0', '0px', '0%', 'auto', '1', 'inherit'), t=L('initial', '0', '0px', '0%', 'auto', '1', 'inherit', 'INITIAL', 'content', '10px', '-1'))]),
-    dict(fam='boxshadow', props=['box-shadow'], kind='list', min=1, max=dict(q=4, t=5),
+    dict(fam='boxshadow', props=['box-shadow'], kind='list', min=1, max=dict(q=4, t=4),
          slots=[dict(q=L('0', '0px', '1px', 'inset', 'red', 'none', 'initial', ','), t=L('0', '0px', '1px', '-1px', 'inset', 'red', '#000', 'none', 'initial', ',', 'rgba(0,0,0,0)'))]),
     dict(fam='textshadow', props=['text-shadow'], kind='list', min=1, max=dict(q=3, t=4),
          slots=[dict(q=L('0', '1px', 'white', '#FFF', ','), t=L('0', '0px', '1px', 'white', '#FFF', ',', 'BLACK', 'rgb(255,255,255)'))]),
-    dict(fam='urange', props=['unicode-range'], kind='list', min=1, max=dict(q=3, t=5),
+    dict(fam='urange', props=['unicode-range'], kind='list', min=1, max=dict(q=3, t=3),
          slots=[dict(q=L('U+26', 'U+0-7F', 'U+26??', 'U+2680-2780', 'U+2680-2690', 'U+0-10FFFF', 'u+0025-00ff', ','),
                      t=L('U+26', 'U+0-7F', 'U+26??', 'U+27??', 'U+2680-2780', 'U+2680-2690', 'U+0-10FFFF', 'u+0025-00ff', 'U+4??', 'U+1234-1234', 'U+0-FFFF', 'U+10000-10FFFF', 'U+??????', 'U+27', ','))]),
     dict(fam='rgbc', props=COLOR_PROPS, kind='func', fn='rgb', sep='comma', slots=[RGB_SLOT, RGB_SLOT, RGB_SLOT, ALPHA_SLOT]),
@@ -254,7 +266,7 @@ FAMS = [
                 dict(q=L('top', 'calc', 'translate', 'var'), t=L('top', 'calc', 'translate', 'var', 'min', 'foo', 'rotate'))]),
     dict(fam='strurl', props=['content', 'background-image', 'src', 'cursor', 'x'], kind='list', min=1, max=dict(q=1, t=2),
          slots=[dict(q='STRURL', t='STRURL')]),
-    dict(fam='sel', props=[], kind='sel', min=1, max=dict(q=3, t=4), slots=[dict(q='SEL_Q', t='SEL_T')]),
+    dict(fam='sel', props=[], kind='sel', min=1, max=dict(q=3, t=3), slots=[dict(q='SEL_Q', t='SEL_T')]),
 ]
 COLORTOKS_Q = ['#000', '#FFF', '#f00', '#FF0000', '#ff0000', '#c0c0c0', '#aabbcc', '#AABBCCDD', '#aabbccff', '#0000', '#00000000', '#abcd', '#abcf',
                '#000080', '#808080', 'transparent', 'currentcolor', 'inherit', '#12', '#12345', '#ggg']
@@ -410,8 +422,15 @@ ANGLE_UNITS = {'deg', 'grad', 'rad', 'turn'}
 NUM_ZERO = re.compile(r'^[+-]?(0*\.?0*)(e[+-]?\d+)?$', re.I)
 
 
-def excluded(F, prop, text, lexs):
+def excluded(F, prop, text, lexs, css2):
     fam = F['fam']
+    if fam == 'num' and css2 and re.match(r'^[+-]?0*\.?0*e', lexs[0], re.I) and re.match(r'^[+-]?0', lexs[0]):
+        return 'KeepCSS2: zero with an exponent part (0e5)'
+    if fam == 'font':
+        isid = lambda x: re.match(r'^-?[A-Za-z_]', x) is not None
+        for j in range(len(lexs)):
+            if re.match(r'^-[A-Za-z_-]', lexs[j]) and ((j + 1 < len(lexs) and isid(lexs[j + 1])) or (j > 0 and isid(lexs[j - 1]))):
+                return 'font: identifier starting with a hyphen next to another identifier (family name of several identifiers)'
     if fam == 'bordercolor' and 'currentcolor' in text.lower() and len(lexs) > 1:
         return 'border-color: currentcolor inside a list of 2-4 colours'
     if fam in ('font', 'fontfamily') and any(len(x) > 2 and x[0] in '"\'' and x[1:-1].lower() in GENERIC_FAMILIES for x in lexs):
@@ -428,6 +447,59 @@ def excluded(F, prop, text, lexs):
     return None
 
 
+
+# ------------------------------------------------------------------ structure templates
+RULES = [
+    'a{color:red}', 'A , B > C{margin:0px}', '.x .y + #z ~ q{padding:1px 1px}', 'a:hover::before{content:"x"}',
+    'input[type="radio" i]{x:y}', '[class*=" icon-"]{x:y}', 'a{}', 'a{color:red;;color:blue;}', 'a { color : RED !important ; }',
+    'a{color:red!IMPORTANT}', 'a{margin:0 ! important}', 'a{--Custom-Var: 0px ;--e:;}', 'a{*zoom:1;_height:1px}',
+    'a{color:red /* c */ ; /* d */ margin : 1px /* e */ 2px}', 'li:nth-child( 2n + 1 ){x:y}', 'a:not( .b , .c ){x:y}',
+    'DIV.Cls#Id{COLOR:Red}', 'a{background:url( "x.png" ) no-repeat}', 'a{width:calc( 100% - 2 * 1.0px )}', 'a{color:red}b{color:blue}',
+    'from{top:0px}50.0%{top:1px}TO{top:2px}', 'a{filter:progid:DXImageTransform.Microsoft.Alpha(Opacity=50)}',
+    'a{font:12px/1.0 "Helvetica Neue",Arial}', '*{x:y}', 'a *{x:y}', 'a:is(h1,h2) b{x:y}', '::selection{color:#FFFFFF}',
+    'a{transition:all .30s ease-in-out 0s}', 'a{grid-template-areas:"a b" "c d"}', 'a{content:"\\201C"}',
+]
+AT_SIMPLE = [
+    '@charset "utf-8";', '@import "a.css";', "@import url('a.css');", '@import url(a.css);', '@import url( a.css ) screen;', '@IMPORT "a.css" screen and (min-width:1px);',
+    '@namespace svg url(http://www.w3.org/2000/svg);', '@import url("a.css") ;',
+]
+AT_BLOCKS = [
+    ('@media screen{', '}'), ('@MEDIA only screen and (max-width : 800px) , print{', '}'), ('@media (min-width:0px) and (max-width:100.0px){', '}'),
+    ('@supports (display:grid) and (not (display:inline-grid)){', '}'), ('@media screen{@media (min-width:1px){', '}}'),
+    ('@-webkit-keyframes K{', '}'), ('@keyframes Spin{', '}'), ('@document url(http://x/){', '}'), ('@layer base{', '}'), ('@container (min-width:0px){', '}'),
+    ('@media screen and (-webkit-min-device-pixel-ratio:1.50),(min-resolution:144dpi){', '}'),
+]
+AT_DECL = [
+    '@font-face{font-family:"My Font";src:url("a.woff") format("woff"),local( "My Font" );unicode-range:U+0000-00FF,U+0131;font-weight:bold}',
+    '@font-face{font-family:Foo;src:url(a.eot?#iefix) format("embedded-opentype")}',
+    '@page :first{margin:1.0in 0in}', '@page{size:A4;margin:0cm}', '@counter-style x{system:cyclic;symbols:"*"}', '@viewport{width:device-width}',
+    '@font-face{unicode-range:U+26??,U+2680-2690}',
+]
+
+
+def struct_cases(ctx):
+    out = []
+    texts = list(RULES) + list(AT_SIMPLE) + list(AT_DECL)
+    for a, b in AT_BLOCKS:
+        texts.append(a + b)
+        for r in (RULES if not ctx.quick() else ctx.rnd.sample(RULES, 6)):
+            texts.append(a + r + b)
+    for x in AT_SIMPLE:
+        texts.append(x + RULES[0])
+    for x in AT_DECL:
+        texts.append(x + '\n' + RULES[1])
+    pairs = [(ctx.rnd.choice(RULES), ctx.rnd.choice(RULES + AT_DECL)) for _ in range(40 if ctx.quick() else 400)]
+    for x, y in pairs:
+        texts.append(x + ' ' + y)
+        texts.append('<!-- ' + x + ' --> ' + y)
+    for t in texts:
+        out.append(mk(t, False, False, 'struct'))
+        if not ctx.quick():
+            out.append(mk(t, False, True, 'struct'))
+            out.append(mk(t.replace('{', ' {\n  ').replace(';', ' ;\n  ').replace('}', '\n}\n'), False, False, 'struct:spaced'))
+    return out
+
+
 def gen_cases(ctx):
     tier = 'q' if ctx.quick() else 't'
     exe = vlib.build_harness(ctx, 'c04')
@@ -435,11 +507,18 @@ def gen_cases(ctx):
     dump = ctx.path('gen', 'cssgen')
     r = vlib.tlc_mc(ctx, 'CssGen', 'CssGen.cfg', dump=dump, env={'ALPHA': alpha}, heap='6g', timeout=1500,
                     workers=min(8, vlib.NCPU))
-    states = parse_dump(dump + '.dump')
+    states = sorted(parse_dump(dump + '.dump'), key=lambda st: (st['f'], len(st['seq']), st['seq']))   # TLC workers dump in any order
     ctx.coverage['generator_states'] = r['distinct']
     cases = []
     per_fam = {}
     excl = {}
+    cap = 6000 if ctx.quick() else 20000
+    nok = {}
+    for st in states:
+        if st['ok']:
+            nok[FAMS[st['f'] - 1]['fam']] = nok.get(FAMS[st['f'] - 1]['fam'], 0) + 1
+    keep_p = {k: min(1.0, cap / float(v)) for k, v in nok.items()}
+    ctx.coverage['family_sampling'] = {k: round(v, 3) for k, v in keep_p.items() if v < 1.0}
     for st in states:
         F, fam = FAMS[st['f'] - 1], fams[st['f'] - 1]
         if not complete(F, fam, st['seq']):
@@ -454,22 +533,23 @@ def gen_cases(ctx):
             per_fam[F['fam']][1] += 1
             cases.append(mk(text + '{x:y}', False, False, 'gen:sel'))
             continue
-        if not st['ok'] and ctx.rnd.random() > (0.05 if ctx.quick() else 0.15):
+        if not st['ok'] and ctx.rnd.random() > (0.05 if ctx.quick() else 0.1):
             continue        # values outside the meaning functions' domain: a sample only (totality of the code)
+        if st['ok'] and ctx.rnd.random() > keep_p.get(F['fam'], 1.0):
+            continue        # family above the per-family cap: seeded sample
         per_fam[F['fam']][1] += 1
         props = [p for p in F['props'] if not p.endswith(':EXCL')]
-        if ctx.quick() and len(props) > 1:
+        if len(props) > 1:
             props = [props[0]] if ctx.rnd.random() < 0.5 else [ctx.rnd.choice(props)]
         for prop in props:
-            why = excluded(F, prop, text, lexs)
-            if why:
-                excl[why] = excl.get(why, 0) + 1
-                continue
             decl = '%s:%s' % (prop, text)
             variants = [(True, False), (False, False), (True, True), (False, True)]
-            if ctx.quick():
-                variants = [ctx.rnd.choice(variants)]
+            variants = [ctx.rnd.choice(variants)] if ctx.quick() else ctx.rnd.sample(variants, 2)
             for inline, css2 in variants:
+                why = excluded(F, prop, text, lexs, css2)
+                if why:
+                    excl[why] = excl.get(why, 0) + 1
+                    continue
                 cases.append(mk(decl if inline else 'a{' + decl + '}', inline, css2, 'gen:' + F['fam']))
     ctx.coverage['generated_per_family'] = {k: dict(complete=v[0], emitted=v[1]) for k, v in per_fam.items()}
     ctx.coverage['generator_exclusions'] = excl
@@ -477,9 +557,13 @@ def gen_cases(ctx):
 
 
 def run(ctx):
+    import time
+    t0 = time.time()
     exe = vlib.build_harness(ctx, 'c04')
     cases = []
     cases += gen_cases(ctx)
+    vlib.log('C04: build + model checking + generation %.0fs' % (time.time() - t0))
+    cases += struct_cases(ctx)
     cases += repo_test_cases(ctx)
     cases += corpus_cases(ctx)
     for c in vlib.known_cases(PID):
@@ -492,64 +576,101 @@ def run(ctx):
             seen.add(k)
             uniq.append(c)
     cases = uniq
-    events, per_case, stats = validate(ctx, exe, cases, 'main')
+    t1 = time.time()
+    outs, per_case, stats = validate(ctx, exe, cases, 'main')
+    vlib.log('C04: %d cases run and %d distinct lines validated in %.0fs' % (len(cases), stats['distinct_lines'], time.time() - t1))
     ctx.coverage.update(stats)
-    # every rejected case is re-run alone (fresh process) and re-validated before it counts
+    # every rejected case is re-run alone (fresh driver process) and re-validated before it counts
     bad = sorted(per_case)
     reproduced = 0
     if bad:
-        sub = [cases[ci] for ci in bad[:MAX_RERUN]]
-        ev2, pc2, _ = validate(ctx, exe, sub, 'rerun', isolated=True)
+        sub = [dict(cases[ci]) for ci in bad[:MAX_RERUN]]
+        outs2, pc2, _ = validate(ctx, exe, sub, 'rerun', isolated=True)
         for k, c in enumerate(sub):
             if k in pc2:
                 reproduced += 1
-                ctx.report(ident(c), describe(c, [e for e in ev2 if e['id'] == k], pc2[k]), replay_obj=dict(rejects=pc2[k]))
+                ctx.report(ident(c), describe(c, outs2.get(k, b''), pc2[k]), replay_obj=dict(rejects=pc2[k]))
     if len(bad) > MAX_RERUN:
         vlib.log('%d rejected cases, only the first %d were re-run individually' % (len(bad), MAX_RERUN))
     ctx.coverage['rejections'] = len(bad)
     ctx.coverage['rejections_reproduced'] = reproduced
     nontrivial = set()
     samples = []
-    by_case = {}
-    for e in events:
-        by_case.setdefault(e['id'], []).append(e)
-    for ci, evs in by_case.items():
-        c = cases[ci]
-        out = b''.join(bytes(e['out']) for e in evs if e['idx'] == 0)
-        if not evs[0]['mal'] and out != c['src']:
+    for ci, c in enumerate(cases):
+        if c.get('changed'):
             nontrivial.add((c['src'], c['inline'], c['css2']))
-            if len(samples) < 8 and len(c['src']) < 120 and ci % 97 == 0:
+            if len(samples) < 10 and len(c['src']) < 100 and ci % 997 == 0:
                 samples.append(dict(src=c['src'].decode('latin1'), inline=c['inline'], css2=c['css2'],
-                                    out=out.decode('latin1')))
+                                    out=outs.get(ci, b'').decode('latin1'), origin=c['origin']))
     if not samples and cases:
         c = cases[0]
         samples.append(dict(src=c['src'].decode('latin1')[:200], inline=c['inline'], css2=c['css2']))
+    by_origin = {}
+    for c in cases:
+        o = c['origin'].split(':')[0] + ':' + c['origin'].split(':')[1] if c['origin'].startswith('gen:') else c['origin'].split(':')[0]
+        by_origin[o] = by_origin.get(o, 0) + 1
     ctx.coverage.update(dict(
         traces_validated_against_impl=stats['accepted'],
         evaluations=stats['lines'],
         cases=len(cases),
+        cases_by_origin=by_origin,
         distinct_nontrivial=len(nontrivial),
-        rule='a case is (text, inline?, KeepCSS2?); non-trivial = the minifier output differs from the input text',
+        rule=RULE,
         samples=samples,
     ))
+    ctx.assumptions += ASSUMPTIONS
 
 
 def replay(ctx, obj):
     exe = vlib.build_harness(ctx, 'c04')
     c = obj['case']
     case = mk(c['src'].encode('latin1'), c['inline'], c['css2'], 'replay')
-    evs, pc, _ = validate(ctx, exe, [case], 'replay')
-    print(describe(case, evs, pc.get(0, [])))
+    outs, pc, _ = validate(ctx, exe, [case], 'replay', isolated=True)
+    print(describe(case, outs.get(0, b''), pc.get(0, [])))
     if 0 in pc:
         print('VIOLATION property=C04 replay=given')
         return 1
     return 0
 
 
+RULE = ('a case is (text, inline?, KeepCSS2?) run through the real css.Minifier; one trace line per item position '
+        '(rule / at-rule / declaration / raw run / end of block) of input and output; non-trivial = the minifier output '
+        'differs from the input text.  Sources: every state of the CssGen automaton inside the bounds of the tier '
+        '(per family all token lists up to the family arity over the alphabets in tools/props/c04.py; families above '
+        'the per-family cap are sampled with the seed), css_test.go inputs in inline and wrapped stylesheet mode, '
+        '_benchmarks/*.css, tests/css/corpus.  Inputs with CSS Syntax parse errors (bad string/url, unbalanced brackets, '
+        'a comment as the only separator of two tokens) are outside the checked domain and only counted.  Generator '
+        'exclusions (narrow constructs of known findings, pinned in known/C04.ndjson) are listed under generator_exclusions.')
+ASSUMPTIONS = [
+    'harness/cmd/c04 tokenizer.go + parser.go implement CSS Syntax Level 3 sections 4 and 5 (independent of tdewolff/parse); '
+    'at-rule block kinds: media/supports/document/keyframes = rule list, font-face/page = declaration list, others raw tokens',
+    'TLC evaluates CssEq.ItemVerdict (spec/CssEq.tla, CssShorthand.tla, CssValue.tla, CssColor.tla, NumVal.tla)',
+    'named colour table transcribed from golang.org/x/image/colornames (SVG 1.1) + rebeccapurple, not from the code under test',
+    'values outside the domain of the meaning functions (var() inside shorthands, non-integer hsl arguments, rounding ties, '
+    'invalid values for the property grammar) are accepted vacuously, decided on the INPUT only; counted as outside_domain',
+    'type selectors / pseudo names are ASCII case-insensitive (HTML), class, id and attribute parts are not; '
+    'data: URLs are compared by decoded payload only (media type part belongs to C18)',
+]
+
+
 META = dict(
     category='model_checking',
-    text='TODO',
-    design_ref='DESIGN.md section 4, C04',
-    note='TODO',
-    technique='TLA+ meaning functions for CSS values + TLC trace validation of real minifier runs',
+    text='The meaning the property talks about is defined in TLA+ (spec/CssValue.tla: exact rational value and unit of numbers, '
+         'zero-length rule, decoded strings/URLs, pass-through tokens; spec/CssColor.tla: sRGB channels and alpha of hex, rgb(), '
+         'hsl() and the named colours of the standard, in exact integer arithmetic; spec/CssShorthand.tla: longhand expansion of '
+         'margin/padding/border-width, border*/outline/column-rule/text-decoration/text-emphasis, background and its longhands '
+         '(position as offsets from the left/top edge), font/font-family/font-weight, flex family, box-shadow, unicode-range as '
+         'code point intervals; spec/CssEq.tla: selectors, at-rule preludes, items).  TLC model-checks the generator automaton '
+         'spec/CssGen.tla exhaustively within the bounds of the tier (every token list up to the family arity over the alphabets): '
+         'in every state the meaning functions are evaluated (totality) and the design model - each documented rewrite transcribed '
+         'as an operator on token lists - must preserve the meaning.  Every enumerated value (sampled above a per-family cap), the '
+         'inputs of css_test.go, the benchmark style sheets and the fuzz corpus are run through the real css.Minifier '
+         '(inline/stylesheet, KeepCSS2 on/off, Precision 0); input and output are projected by an independent CSS Syntax 3 '
+         'tokenizer/parser in the harness and TLC evaluates the relation CssEq.ItemVerdict on every item position of every run.',
+    design_ref='DESIGN.md section 4, C04; Appendix B (CSS)',
+    note='Trusted: TLC; the harness tokenizer/parser (harness/cmd/c04) as reading of CSS Syntax 3; the meaning functions as reading of '
+         'the CSS modules cited in the spec comments.  Limits: values outside the meaning functions\' domain are accepted vacuously '
+         '(counted: outside_domain); malformed inputs (CSS Syntax parse errors) are not judged; data: URLs by payload only; type '
+         'selector / namespace prefix case is treated as insignificant; Precision > 0 belongs to C16.',
+    technique='TLA+ meaning functions and generator automaton model-checked with TLC + TLC trace validation of real minifier runs',
 )
